@@ -1556,7 +1556,10 @@ def normalise_reshape_spellings(fn) -> int:
 
 
 def normalise_broadcasts(fn) -> int:
-    """Explicit broadcasting that only prepares operands of elementwise arithmetic, in place:
+    """NOT RUN as a model pass any more (see DESIGN 10.3, round 6): rules about masks and shapes (C13.j) must see the broadcasting; the
+    term engine resolves these spellings itself (terms.local_terms / from_ast).  Kept for reference.
+
+    Explicit broadcasting that only prepares operands of elementwise arithmetic, in place:
         a, b = np.broadcast_arrays(x, y)   ->   a = x; b = y        (no target is read by a later operand of the same statement)
         np.broadcast_to(x, shape)           ->   x
     Elementwise arithmetic broadcasts by itself; the VALUES the rules reason about are the same (shapes are the business of E8, which
@@ -2205,7 +2208,6 @@ def flatten_model(model) -> Optional[Flattener]:
     fl.out_ufuncs = run(normalise_out_ufuncs)
     fl.casts = run(normalise_casts)
     fl.reshapes = run(normalise_reshape_spellings)
-    fl.broadcasts = run(normalise_broadcasts)
     fl.dict_builders = run(normalise_dict_builders)
     fl.string_locals = run(normalise_string_locals)
     fl.format_getattr = run(normalise_format_and_getattr)
@@ -2265,7 +2267,7 @@ def flatten_model(model) -> Optional[Flattener]:
     _VOCAB.clear()          # splicing changed the callers
     fl.identity_stores = run(drop_identity_stores)
     # the spliced bodies may bring spellings the first passes normalised only in the callers
-    for pass_ in (normalise_casts, normalise_out_ufuncs, normalise_reshape_spellings, normalise_broadcasts, normalise_dict_builders, normalise_string_locals,
+    for pass_ in (normalise_casts, normalise_out_ufuncs, normalise_reshape_spellings, normalise_dict_builders, normalise_string_locals,
                   normalise_fro_norms, normalise_named_tests):
         run(pass_)
     fl.collectors = run(normalise_collectors)
